@@ -79,9 +79,10 @@ def anchor_funcs(p: Program, prop: str, extra_modules=()):
 
 def generic_rules(ctx: CheckContext, p: Program, r, prop: str, extra_modules=()):
     """repository-wide disciplines, applied to the code the property is anchored in"""
-    from ..rules import argtype, lostupdate, memo, truthy
+    from ..rules import argtype, lostupdate, memo, pitfalls, truthy
     funcs = anchor_funcs(p, prop, extra_modules)
     truthy.check_truthiness(ctx, p, r, funcs)
     memo.check_all(ctx, p, r, funcs)
     argtype.check_argument_kinds(ctx, p, r, funcs)
     lostupdate.check_lost_updates(ctx, p, r, funcs)
+    pitfalls.check_all(ctx, p, r, funcs)
